@@ -15,6 +15,7 @@ import networkx as nx
 
 from ..common import Result, sut, digest
 from ..taps import RandomTap, installed, reseed_bits
+from ..interfere import interfere
 from ..graphs import MonitoredGraph, snapshot, same_snapshot
 from ..stats import two_stage, binom_pmf
 
@@ -301,11 +302,19 @@ def run_case(case):
         N = 2 * (M + 1)
         key = "two_star_samples"
 
+    interfered = int(phi * 100) % 2 == 0
+    irng = random.Random(case["seed"] + 5)
+    if interfered:
+        res.count("sampling_cases_with_other_features_used_between_calls")
+
     def draw(n, stage):
         tap = RandomTap(seed=case["seed"] * 17 + stage + int(phi * 1000), keep_log=False)
         c = Counter()
         with installed(tap, "bond"):
             for _ in range(n):
+                if interfered:
+                    # the caller refreshes a cover / generates a graph / uses a DrawSet between two percolation runs
+                    interfere(irng, tap, None, only=("MPCC", "EECC", "GCMAlgorithmFast", "DrawSet"), k=1)
                 S = sut("bond_percolate", gcmpy.bond_percolate, g, phi)
                 c[int(round(S * N)) - 1] += 1
                 res.count(key)
